@@ -3,6 +3,7 @@
 package ui
 
 import (
+	"path/filepath"
 	"encoding/json"
 	"fmt"
 	"html"
@@ -30,7 +31,7 @@ var hostileLinkBits = []string{
 func hostileLink(r *rand.Rand) string { return hostileLinkBits[r.Intn(len(hostileLinkBits))] }
 
 func decorateForHook(g *world.Generated, r *rand.Rand) {
-	mts := []any{"image/png", "video/mp4", "audio/ogg", "application/x-%url", "image/%url", "%url/%subtype", "%mimetype/%supertype", "video/%mimetype", "%supertype/%url", "text/html; charset=utf-8", "garbage", "", nil, 5.0, "IMAGE/PNG", "a/b/c"}
+	mts := []any{"image/png,image/webp", "video/mp4;codecs=avc1", "image/png, image/gif", "a/b,c", "image/png", "video/mp4", "audio/ogg", "application/x-%url", "image/%url", "%url/%subtype", "%mimetype/%supertype", "video/%mimetype", "%supertype/%url", "text/html; charset=utf-8", "garbage", "", nil, 5.0, "IMAGE/PNG", "a/b/c"}
 	for _, p := range g.Posts {
 		if r.Intn(2) == 0 {
 			kind := []string{"Link", "Video", "Image", "Audio", "Document"}[r.Intn(5)]
@@ -304,8 +305,10 @@ func TestVerifC20(t *testing.T) {
 				opens++
 				c.Count("opens_checked", 1)
 				c.Count("via:"+strings.SplitN(at.how, "(", 2)[0], 1)
-				if len(rec.Argv) > 0 {
-					rec.Argv[0] = hook[0] // argv[0] as exec'd is the configured program name; the kernel may show the resolved path
+				if len(rec.Argv) > 0 && filepath.Base(rec.Argv[0]) == filepath.Base(hook[0]) {
+					// the same program under the configured name; whether argv[0] spells the directory it was found in is not part of
+					// the statement (a name looked up through PATH may legitimately arrive as the path it resolved to)
+					rec.Argv[0] = hook[0]
 				}
 				if fmt.Sprintf("%q", rec.Argv) != fmt.Sprintf("%q", wantArgv) {
 					sig := "argv"
